@@ -4,7 +4,7 @@ namespace SFV.Eng
 
 /-! ### the command loop is a fold -/
 
-theorem runCircuit_append (free : String → Option Rat) (outc : Nat → List Rat) (a b : List Cmd) (st : RunSt) :
+theorem runCircuit_append (free : String → Option Rat) (outc : Outc) (a b : List Cmd) (st : RunSt) :
     runCircuit free outc st (a ++ b) =
       match runCircuit free outc st a with
       | .error e => .error e
@@ -83,7 +83,7 @@ theorem deps_gateArgs (pars ps : List Par) (dg : Bool) (h : gateArgs pars dg = s
       | false => rfl
       | true => simp [List.filterMap_cons, dep_neg]
 
-theorem storeVals_congr (v v' : Nat → Option Val) (rs : List Nat) (o : List Rat) (m : Nat)
+theorem storeVals_congr (v v' : Nat → Option Val) (rs : List Nat) (o : List (List Rat)) (m : Nat)
     (h : v m = v' m) : storeVals v rs o m = storeVals v' rs o m := by
   induction rs generalizing v v' o with
   | nil => simpa [storeVals] using h
@@ -92,7 +92,7 @@ theorem storeVals_congr (v v' : Nat → Option Val) (rs : List Nat) (o : List Ra
     apply ih
     simp only [h]
 
-theorem storeVals_mem (v v' : Nat → Option Val) (rs : List Nat) (o : List Rat) (m : Nat)
+theorem storeVals_mem (v v' : Nat → Option Val) (rs : List Nat) (o : List (List Rat)) (m : Nat)
     (h : m ∈ rs) : storeVals v rs o m = storeVals v' rs o m := by
   induction rs generalizing v v' o with
   | nil => cases h
@@ -130,7 +130,7 @@ def SimRes (D : List Nat) : Except Err (RunSt × List Call) → Except Err (RunS
   | .error e, .error e' => e = e'
   | _, _ => False
 
-theorem applyCmd_sim (free : String → Option Rat) (outc : Nat → List Rat) (c : Cmd) (D : List Nat)
+theorem applyCmd_sim (free : String → Option Rat) (outc : Outc) (c : Cmd) (D : List Nat)
     (st st' : RunSt)
     (h : Sim (c.deps ++ D.filter fun m => !(c.kind == .meas && c.regs.contains m)) st st') :
     SimRes D (applyCmd free outc st c) (applyCmd free outc st' c) := by
@@ -194,7 +194,7 @@ theorem applyCmd_sim (free : String → Option Rat) (outc : Nat → List Rat) (c
 /-- **a circuit reads the measured values only at its open dependencies**: from two states that agree
 there (and, for the conclusion, on `D`), the same calls are made, the same error is raised, and the
 final states agree on `D`. -/
-theorem runCircuit_sim (free : String → Option Rat) (outc : Nat → List Rat) (c : List Cmd) (D : List Nat)
+theorem runCircuit_sim (free : String → Option Rat) (outc : Outc) (c : List Cmd) (D : List Nat)
     (st st' : RunSt) (h : Sim (openDeps c ++ D) st st') :
     SimRes D (runCircuit free outc st c) (runCircuit free outc st' c) := by
   induction c generalizing st st' D with
@@ -289,14 +289,14 @@ theorem bindParams_ok {names : List String} {free f : String → Option Rat} {ar
 
 /-! ### the loop body, destructured -/
 
-theorem runProgram_local {bk : BK} (hb : bk ≠ .bosonic) (cont : Bool) (free : String → Option Rat) (outc : Nat → List Rat)
+theorem runProgram_local {bk : BK} (hb : bk ≠ .bosonic) (cont : Bool) (free : String → Option Rat) (outc : Outc)
     (n : Nat) (st : RunSt) (c : List Cmd) : runProgram bk cont free outc n st c = runCircuit free outc st c := by
   cases bk with
   | bosonic => exact absurd rfl hb
   | fock => rfl
   | gaussian => rfl
 
-theorem runOne_ok {cp : Compiler} {progs : Nat → Prog} {outc : Nat → List Rat} {args : List (String × Rat)}
+theorem runOne_ok {cp : Compiler} {progs : Nat → Prog} {outc : Outc} {args : List (String × Rat)}
     {e e' : Eng} {w w' : World} {i : Nat} {t : List Call}
     (h : runOne cp progs outc args e w i = .ok (e', w', t)) :
     ∃ circ vals0 t0 free1 st tt,
@@ -305,7 +305,7 @@ theorem runOne_ok {cp : Compiler} {progs : Nat → Prog} {outc : Nat → List Ra
       bindParams (progs i).freeNames (w.free i) args = .ok free1 ∧
       runProgram e.bk e.contd free1 outc (progs i).initN { vals := vals0, mpos := e.mpos } circ = .ok (st, tt) ∧
       e' = { e with prev := some (progs i).regs, runIds := e.runIds ++ [i],
-                    samples := some (st.samples.map (·.2)),
+                    samples := some (rowsOf (st.samples.map (·.2))),
                     measured := fun k => if hasIdx (progs i).regs k then st.vals k else none,
                     contd := e.contd || !circ.isEmpty, mpos := st.mpos } ∧
       w' = { vals := setAt w.vals i st.vals, free := setAt w.free i free1, locked := setAt w.locked i true } ∧
@@ -333,7 +333,7 @@ theorem runOne_ok {cp : Compiler} {progs : Nat → Prog} {outc : Nat → List Ra
           simp only [hr, Except.ok.injEq, Prod.mk.injEq] at h
           exact ⟨circ, vals0, t0, free1, st, tt, rfl, rfl, rfl, hr, h.1.symm, h.2.1.symm, h.2.2.symm⟩
 
-theorem runOne_of {cp : Compiler} {progs : Nat → Prog} {outc : Nat → List Rat} {args : List (String × Rat)}
+theorem runOne_of {cp : Compiler} {progs : Nat → Prog} {outc : Outc} {args : List (String × Rat)}
     {e : Eng} {w : World} {i : Nat} {circ : List Cmd} {vals0 : Nat → Option Val} {t0 tt : List Call}
     {free1 : String → Option Rat} {st : RunSt}
     (h1 : decompList compileFuel cp (progs i).circuit = .ok circ)
@@ -342,7 +342,7 @@ theorem runOne_of {cp : Compiler} {progs : Nat → Prog} {outc : Nat → List Ra
     (h4 : runProgram e.bk e.contd free1 outc (progs i).initN { vals := vals0, mpos := e.mpos } circ = .ok (st, tt)) :
     runOne cp progs outc args e w i =
       .ok ({ e with prev := some (progs i).regs, runIds := e.runIds ++ [i],
-                    samples := some (st.samples.map (·.2)),
+                    samples := some (rowsOf (st.samples.map (·.2))),
                     measured := fun k => if hasIdx (progs i).regs k then st.vals k else none,
                     contd := e.contd || !circ.isEmpty, mpos := st.mpos },
            { vals := setAt w.vals i st.vals, free := setAt w.free i free1, locked := setAt w.locked i true },
@@ -355,7 +355,7 @@ theorem runOne_of {cp : Compiler} {progs : Nat → Prog} {outc : Nat → List Ra
 
 /-! ### the segment loop is a fold -/
 
-theorem runList_append (cp : Compiler) (progs : Nat → Prog) (outc : Nat → List Rat) (args : List (String × Rat))
+theorem runList_append (cp : Compiler) (progs : Nat → Prog) (outc : Outc) (args : List (String × Rat))
     (l1 l2 : List Nat) (e : Eng) (w : World) :
     runList cp progs outc args e w (l1 ++ l2) =
       match runList cp progs outc args e w l1 with
@@ -388,39 +388,65 @@ theorem runList_append (cp : Compiler) (progs : Nat → Prog) (outc : Nat → Li
 
 /-! ### `run [..l1, ..l2]` versus `run l1; run l2` -/
 
-theorem run_append (cp : Compiler) (progs : Nat → Prog) (outc : Nat → List Rat) (args : List (String × Rat))
-    (l1 l2 : List Nat) (e : Eng) (w : World) :
-    run cp progs outc args e w (l1 ++ l2) =
-      match run cp progs outc args e w l1 with
+theorem preCheck_append (progs : Nat → Prog) (shots : Nat) (l1 l2 : List Nat) :
+    preCheck progs shots (l1 ++ l2) = (preCheck progs shots l1 || preCheck progs shots l2) := by
+  simp only [preCheck, List.any_append, Bool.and_or_distrib_left]
+
+theorem take_stateCalls (t s : List Call) : (t ++ s).take ((t ++ s).length - s.length) = t := by
+  have : (t ++ s).length - s.length = t.length := by simp
+  rw [this, List.take_left']
+  rfl
+
+theorem run_append (cp : Compiler) (progs : Nat → Prog) (o : Nat → List (List Rat)) (args : List (String × Rat))
+    (kw : RunKw) (l1 l2 : List Nat) (e : Eng) (w : World)
+    (hs1 : effShots progs kw l1 = effShots progs kw (l1 ++ l2))
+    (hs2 : effShots progs kw l2 = effShots progs kw (l1 ++ l2))
+    (hpre : preCheck progs (effShots progs kw (l1 ++ l2)) (l1 ++ l2) = false) :
+    run cp progs o args kw e w (l1 ++ l2) =
+      match run cp progs o args kw e w l1 with
       | .error err => .error err
       | .ok (e1, w1, t1) =>
-        match run cp progs outc args e1 w1 l2 with
+        match run cp progs o args kw e1 w1 l2 with
         | .error err => .error err
-        | .ok (e2, w2, t2) => .ok (e2, w2, t1.dropLast ++ t2) := by
+        | .ok (e2, w2, t2) => .ok (e2, w2, t1.take (t1.length - (stateCalls kw).length) ++ t2) := by
+  have hp := hpre
+  rw [preCheck_append, Bool.or_eq_false_iff] at hp
   unfold run
+  simp only [hs1, hs2, hpre, hp.1, hp.2, Bool.false_eq_true, if_false]
   rw [runList_append]
-  cases runList cp progs outc args e w l1 with
+  cases runList cp progs ⟨o, effShots progs kw (l1 ++ l2)⟩ args e w l1 with
   | error err => rfl
   | ok r =>
     obtain ⟨e1, w1, t1⟩ := r
     simp only
-    cases runList cp progs outc args e1 w1 l2 with
+    cases runList cp progs ⟨o, effShots progs kw (l1 ++ l2)⟩ args e1 w1 l2 with
     | error err => rfl
     | ok r2 =>
       obtain ⟨e2, w2, t2⟩ := r2
-      simp [List.append_assoc]
+      simp only [take_stateCalls, List.append_assoc]
 
-theorem run_trace_ends {cp : Compiler} {progs : Nat → Prog} {outc : Nat → List Rat} {args : List (String × Rat)}
-    {l : List Nat} {e e1 : Eng} {w w1 : World} {t : List Call}
-    (h : run cp progs outc args e w l = .ok (e1, w1, t)) : t = t.dropLast ++ [stateCall] := by
+theorem run_trace_ends {cp : Compiler} {progs : Nat → Prog} {o : Nat → List (List Rat)} {args : List (String × Rat)}
+    {kw : RunKw} {l : List Nat} {e e1 : Eng} {w w1 : World} {t : List Call}
+    (h : run cp progs o args kw e w l = .ok (e1, w1, t)) :
+    t = t.take (t.length - (stateCalls kw).length) ++ stateCalls kw := by
   unfold run at h
-  cases hr : runList cp progs outc args e w l with
-  | error err => simp [hr] at h
-  | ok r =>
-    obtain ⟨e2, w2, t2⟩ := r
-    simp only [hr, Except.ok.injEq, Prod.mk.injEq] at h
-    rw [← h.2.2]
-    simp
+  simp only at h
+  split at h
+  · cases h
+  · cases hr : runList cp progs ⟨o, effShots progs kw l⟩ args e w l with
+    | error err => simp [hr] at h
+    | ok r =>
+      obtain ⟨e2, w2, t2⟩ := r
+      simp only [hr, Except.ok.injEq, Prod.mk.injEq] at h
+      rw [← h.2.2, take_stateCalls]
+
+theorem mutating_stateCalls (kw : RunKw) : mutating (stateCalls kw) = [] := by
+  unfold stateCalls
+  cases kw.modes with
+  | none => decide
+  | some l => cases l with
+    | nil => rfl
+    | cons a rest => simp [mutating]
 
 theorem mutating_append (a b : List Call) : mutating (a ++ b) = mutating a ++ mutating b := by
   simp [mutating, List.filter_append]
@@ -429,7 +455,7 @@ theorem mutating_state : mutating [stateCall] = [] := by decide
 
 /-! ### runIds -/
 
-theorem runList_runIds {cp : Compiler} {progs : Nat → Prog} {outc : Nat → List Rat} {args : List (String × Rat)}
+theorem runList_runIds {cp : Compiler} {progs : Nat → Prog} {outc : Outc} {args : List (String × Rat)}
     {l : List Nat} {e e1 : Eng} {w w1 : World} {t : List Call}
     (h : runList cp progs outc args e w l = .ok (e1, w1, t)) : e1.runIds = e.runIds ++ l ∧ e1.bk = e.bk ∧ e1.opts = e.opts := by
   induction l generalizing e w t e1 w1 with
@@ -467,7 +493,7 @@ theorem openDeps_mark (c : List Cmd) : openDeps (c.map bosonicMark) = openDeps c
     obtain ⟨h1, h2, h3⟩ := bosonicMark_fields x
     simp only [List.map_cons, openDeps, ih, Cmd.deps, h1, h2, h3]
 
-theorem runProgram_sim (bk : BK) (cont : Bool) (free : String → Option Rat) (outc : Nat → List Rat) (n : Nat)
+theorem runProgram_sim (bk : BK) (cont : Bool) (free : String → Option Rat) (outc : Outc) (n : Nat)
     (c : List Cmd) (st st' : RunSt) (h : Sim (openDeps c) st st') :
     SimRes [] (runProgram bk cont free outc n st c) (runProgram bk cont free outc n st' c) := by
   have hs := runCircuit_sim free outc c [] st st' (by simpa using h)
@@ -499,7 +525,7 @@ theorem runProgram_sim (bk : BK) (cont : Bool) (free : String → Option Rat) (o
             intro hs
             exact ⟨by rw [hs.1], hs.2⟩
 
-theorem runOne_world_indep {cp : Compiler} {progs : Nat → Prog} {outc : Nat → List Rat} {args : List (String × Rat)}
+theorem runOne_world_indep {cp : Compiler} {progs : Nat → Prog} {outc : Outc} {args : List (String × Rat)}
     {i : Nat} {circ : List Cmd} (hc : decompList compileFuel cp (progs i).circuit = .ok circ)
     (ho : openDeps circ = []) (e : Eng) (hp : e.prev = none) (w w' : World) (hf : w.free i = w'.free i) :
     (runOne cp progs outc args e w i).map (fun r => (r.2.2, r.1.mpos, r.1.prev, r.1.samples.isSome)) =
@@ -562,7 +588,7 @@ theorem initStep_agree (e : Eng) (p p' : Prog) (v v' v0 v0' : Nat → Option Val
       simp only [handOver, (hasIdx_iff _ _).2 (hL m hm).1, (hasIdx_iff _ _).2 (hL m hm).2, if_true]
     · cases h
 
-theorem runList_two {cp : Compiler} {progs : Nat → Prog} {outc : Nat → List Rat} {args : List (String × Rat)}
+theorem runList_two {cp : Compiler} {progs : Nat → Prog} {outc : Outc} {args : List (String × Rat)}
     {e ea : Eng} {w wa : World} {i1 i2 : Nat} {ta : List Call}
     (h : runList cp progs outc args e w [i1, i2] = .ok (ea, wa, ta)) :
     ∃ e1 w1 t1 t2, runOne cp progs outc args e w i1 = .ok (e1, w1, t1) ∧
@@ -580,7 +606,7 @@ theorem runList_two {cp : Compiler} {progs : Nat → Prog} {outc : Nat → List 
       simp only [h2, Except.ok.injEq, Prod.mk.injEq, List.append_nil] at h
       exact ⟨e1, w1, t1, t2, rfl, by rw [h2, h.1, h.2.1], h.2.2.symm⟩
 
-theorem runList_one {cp : Compiler} {progs : Nat → Prog} {outc : Nat → List Rat} {args : List (String × Rat)}
+theorem runList_one {cp : Compiler} {progs : Nat → Prog} {outc : Outc} {args : List (String × Rat)}
     {e ea : Eng} {w wa : World} {i : Nat} {ta : List Call}
     (h : runList cp progs outc args e w [i] = .ok (ea, wa, ta)) :
     runOne cp progs outc args e w i = .ok (ea, wa, ta) := by
@@ -595,7 +621,7 @@ theorem runList_one {cp : Compiler} {progs : Nat → Prog} {outc : Nat → List 
 
 /-- core of the concatenation argument, on circuits: run `c1` then (from values `v2` that agree with the
 result on what `c2` reads) `c2`, versus `c1 ++ c2` from a similar initial state -/
-theorem concat_core (free : String → Option Rat) (outc : Nat → List Rat) (c1 c2 : List Cmd) (L : List Nat)
+theorem concat_core (free : String → Option Rat) (outc : Outc) (c1 c2 : List Cmd) (L : List Nat)
     (st0 st0' st1 st2 st12 : RunSt) (v2 : Nat → Option Val) (tt1 tt2 tt12 : List Call)
     (h0 : Sim (openDeps c1 ++ L) st0 st0')
     (hr1 : runCircuit free outc st0 c1 = .ok (st1, tt1))
@@ -643,7 +669,7 @@ theorem map_mark_of_none (l : List Cmd) (h : ∀ c ∈ l, nonGaussPreps.contains
 
 /-- a successful bosonic first segment: no `init_circuit`-only command, the plain loop ran, one
 `begin_circuit` in front unless the circuit is empty -/
-theorem runProgram_bosonic_first {free : String → Option Rat} {outc : Nat → List Rat} {n : Nat} {st st' : RunSt}
+theorem runProgram_bosonic_first {free : String → Option Rat} {outc : Outc} {n : Nat} {st st' : RunSt}
     {c : List Cmd} {t : List Call} (h : runProgram .bosonic false free outc n st c = .ok (st', t)) :
     (∀ x ∈ c, nonGaussPreps.contains x.cls = false) ∧
     ∃ t', runCircuit free outc st c = .ok (st', t') ∧
@@ -664,7 +690,7 @@ theorem runProgram_bosonic_first {free : String → Option Rat} {outc : Nat → 
         simp only [hr, Except.ok.injEq, Prod.mk.injEq] at h
         exact ⟨t2, by rw [h.1], h.2.symm⟩
 
-theorem concat_runList {cp : Compiler} {progs : Nat → Prog} {outc : Nat → List Rat} {args : List (String × Rat)}
+theorem concat_runList {cp : Compiler} {progs : Nat → Prog} {outc : Outc} {args : List (String × Rat)}
     {e : Eng} {w : World} {i1 i2 i12 : Nat} {circ1 circ2 : List Cmd}
     (hbk : e.bk = .bosonic → e.contd = true ∨ circ1 ≠ [])
     (hc : (progs i12).circuit = (progs i1).circuit ++ (progs i2).circuit)
@@ -786,7 +812,7 @@ theorem concat_runList {cp : Compiler} {progs : Nat → Prog} {outc : Nat → Li
 
 /-! ### the two ways of running succeed together -/
 
-theorem concat_core_fwd (free : String → Option Rat) (outc : Nat → List Rat) (c1 c2 : List Cmd) (L : List Nat)
+theorem concat_core_fwd (free : String → Option Rat) (outc : Outc) (c1 c2 : List Cmd) (L : List Nat)
     (st0 st0' st1 st2 : RunSt) (v2 : Nat → Option Val) (tt1 tt2 : List Call)
     (h0 : Sim (openDeps c1 ++ L) st0 st0')
     (hr1 : runCircuit free outc st0 c1 = .ok (st1, tt1))
@@ -815,7 +841,7 @@ theorem concat_core_fwd (free : String → Option Rat) (outc : Nat → List Rat)
       obtain ⟨s2', t2'⟩ := r
       exact ⟨(s2', tt1' ++ t2'), by simp only [h4]⟩
 
-theorem concat_core_bwd (free : String → Option Rat) (outc : Nat → List Rat) (c1 c2 : List Cmd) (L : List Nat)
+theorem concat_core_bwd (free : String → Option Rat) (outc : Outc) (c1 c2 : List Cmd) (L : List Nat)
     (st0 st0' : RunSt) (r12 : RunSt × List Call)
     (h0 : Sim (openDeps c1 ++ L) st0 st0')
     (hr12 : runCircuit free outc st0' (c1 ++ c2) = .ok r12) :
@@ -876,20 +902,20 @@ theorem initStep_ok_iff (e : Eng) (p : Prog) (v : Nat → Option Val) :
       · rintro ⟨r, hr⟩; cases hr
       · intro h'; exact absurd h'.symm h
 
-theorem runList_one_of {cp : Compiler} {progs : Nat → Prog} {outc : Nat → List Rat} {args : List (String × Rat)}
+theorem runList_one_of {cp : Compiler} {progs : Nat → Prog} {outc : Outc} {args : List (String × Rat)}
     {e ea : Eng} {w wa : World} {i : Nat} {ta : List Call}
     (h : runOne cp progs outc args e w i = .ok (ea, wa, ta)) :
     runList cp progs outc args e w [i] = .ok (ea, wa, ta) := by
   simp [runList, h]
 
-theorem runList_two_of {cp : Compiler} {progs : Nat → Prog} {outc : Nat → List Rat} {args : List (String × Rat)}
+theorem runList_two_of {cp : Compiler} {progs : Nat → Prog} {outc : Outc} {args : List (String × Rat)}
     {e e1 ea : Eng} {w w1 wa : World} {i1 i2 : Nat} {t1 t2 : List Call}
     (h1 : runOne cp progs outc args e w i1 = .ok (e1, w1, t1))
     (h2 : runOne cp progs outc args e1 w1 i2 = .ok (ea, wa, t2)) :
     runList cp progs outc args e w [i1, i2] = .ok (ea, wa, t1 ++ t2) := by
   simp [runList, h1, h2]
 
-theorem concat_ok_iff {cp : Compiler} {progs : Nat → Prog} {outc : Nat → List Rat} {args : List (String × Rat)}
+theorem concat_ok_iff {cp : Compiler} {progs : Nat → Prog} {outc : Outc} {args : List (String × Rat)}
     {e : Eng} {w : World} {i1 i2 i12 : Nat} {circ1 circ2 : List Cmd}
     (hbk : e.bk ≠ .bosonic)
     (hc : (progs i12).circuit = (progs i1).circuit ++ (progs i2).circuit)
@@ -995,13 +1021,38 @@ theorem concat_ok_iff {cp : Compiler} {progs : Nat → Prog} {outc : Nat → Lis
     have h2 := runOne_of (e := e1) (w := w1) hd2 hi2 hb2 (by rw [hbk1, runProgram_local hbk, hmp1]; exact hr2)
     exact ⟨_, runList_two_of h1' h2⟩
 
-theorem run_ok_iff (cp : Compiler) (progs : Nat → Prog) (outc : Nat → List Rat) (args : List (String × Rat))
-    (e : Eng) (w : World) (l : List Nat) :
-    (∃ r, run cp progs outc args e w l = .ok r) ↔ (∃ r, runList cp progs outc args e w l = .ok r) := by
+theorem run_ok {cp : Compiler} {progs : Nat → Prog} {o : Nat → List (List Rat)} {args : List (String × Rat)}
+    {kw : RunKw} {l : List Nat} {e ea : Eng} {w wa : World} {ta : List Call}
+    (h : run cp progs o args kw e w l = .ok (ea, wa, ta)) :
+    preCheck progs (effShots progs kw l) l = false ∧
+    ∃ t, runList cp progs ⟨o, effShots progs kw l⟩ args e w l = .ok (ea, wa, t) ∧ ta = t ++ stateCalls kw := by
+  unfold run at h
+  simp only at h
+  cases hp : preCheck progs (effShots progs kw l) l with
+  | true => simp [hp] at h
+  | false =>
+    simp only [hp, Bool.false_eq_true, if_false] at h
+    cases hr : runList cp progs ⟨o, effShots progs kw l⟩ args e w l with
+    | error err => simp [hr] at h
+    | ok r =>
+      obtain ⟨e2, w2, t2⟩ := r
+      simp only [hr, Except.ok.injEq, Prod.mk.injEq] at h
+      exact ⟨rfl, t2, by rw [h.1, h.2.1], h.2.2.symm⟩
+
+theorem run_ok_iff (cp : Compiler) (progs : Nat → Prog) (o : Nat → List (List Rat)) (args : List (String × Rat))
+    (kw : RunKw) (e : Eng) (w : World) (l : List Nat) :
+    (∃ r, run cp progs o args kw e w l = .ok r) ↔
+      (preCheck progs (effShots progs kw l) l = false ∧
+       ∃ r, runList cp progs ⟨o, effShots progs kw l⟩ args e w l = .ok r) := by
   unfold run
-  cases runList cp progs outc args e w l with
-  | error err => simp
-  | ok r => obtain ⟨e1, w1, t⟩ := r; simp
+  simp only
+  cases hp : preCheck progs (effShots progs kw l) l with
+  | true => simp
+  | false =>
+    simp only [Bool.false_eq_true, if_false, true_and]
+    cases runList cp progs ⟨o, effShots progs kw l⟩ args e w l with
+    | error err => simp
+    | ok r => obtain ⟨e1, w1, t⟩ := r; simp
 
 /-! ### heap level -/
 
